@@ -603,6 +603,38 @@ def _run_grid(spec, rec):
                               f"({int((res[2] != keep).sum())} differ)")
         except Exception as e:  # noqa
             rec.fail(f"grid/reproducible/{cls}", f"second call raised {e!r}")
+    # "the same input always gives the same selection": also after the caller has
+    # modified the arrays returned by the *first* call in place (memo cache intact)
+    if done:
+        req, rm, cls, _ = done[0]
+        _clear_memo()
+        try:
+            r1 = downsampling.downsample_grid(a0.copy(), b0.copy(), samples=req,
+                                              remove_invalid=rm, ret_idx=True)
+            keep1 = np.array(r1[2], copy=True)
+            writable = 0
+            for arr in r1:
+                try:
+                    if arr.dtype == bool:
+                        arr[:] = ~arr
+                    else:
+                        arr[:] = 0
+                    writable += 1
+                except ValueError:
+                    pass     # read-only result: cannot be altered, fine
+            if writable:
+                rec.cls("grid:first-result-mutated-then-recall")
+            r2 = downsampling.downsample_grid(a0.copy(), b0.copy(), samples=req,
+                                              remove_invalid=rm, ret_idx=True)
+            rec.check(_same(r2[2], keep1) and _same(r2[0], a0[keep1])
+                      and _same(r2[1], b0[keep1]),
+                      f"grid/reproducible-after-result-mutation/{cls}",
+                      "after modifying the first call's result in place, the same "
+                      "input gives another selection / other values")
+        except Exception as e:  # noqa
+            icls = _raise_cls(req, rm, n, int((_finite(a0) & _finite(b0)).sum()),
+                              False, "plain") if "_raise_cls" in globals() else "x"
+            rec.skip("grid:mutation-recall-raised:" + type(e).__name__)
 
 
 # --------------------------------------------------------------------------
